@@ -108,7 +108,7 @@ def mk(cfg, fs):
             return stim.BandlimitedClickFactory(fs, fs / 10.0, fs / 4.0, cfg['n'] / fs, 1.0)
         return stim.FixedWaveform(fs, fixed_raw(cfg))
     if t == 'gate':
-        return stim.GateFactory(fs, tsec(cfg, 'start', fs), tsec(cfg, 'dur', fs), mk(cfg['in'], fs))
+        return stim.GateFactory(fs, tsec(cfg, 'start', fs), tsec(cfg, 'dur', fs), _used(mk(cfg['in'], fs), cfg))
     if t == 'env':
         rise = tsec(cfg, 'rise', fs)
         kw = {}
@@ -128,8 +128,17 @@ def mk(cfg, fs):
     if t == 'notch':
         return stim.NotchFilterFactory(fs, cfg['f'], cfg['q'], mk(cfg['in'], fs))
     if t == 'repeat':
-        return stim.RepeatFactory(fs, cfg['n'], cfg['skip'], cfg['rate'], cfg['delay'], mk(cfg['in'], fs))
+        return stim.RepeatFactory(fs, cfg['n'], cfg['skip'], cfg['rate'], cfg['delay'], _used(mk(cfg['in'], fs), cfg))
     raise KeyError(t)
+
+
+def _used(inner, cfg):
+    """'preplay': the input factory handed to a gate / repeat wrapper was in legal use before (a few samples previewed, or
+    played to its end to measure a peak); both constructors reset their input, so the stream may not depend on it"""
+    k = cfg.get('preplay')
+    if k is not None:
+        inner.next(k)
+    return inner
 
 
 def shaped_gains(fs):
@@ -768,6 +777,10 @@ def catalogue_extra(fs):
         {'t': 'repeat', 'n': 2, 'skip': 1, 'rate': fs / 11.0, 'delay': 1 / fs,
          'in': {'t': 'sam', 'depth': 1.0, 'fm': fs / 7.0, 'delay': 2 / fs, 'in': {'t': 'fixed', 'n': 9}}},
         {'t': 'repeat', 'n': 2, 'skip': 0, 'rate': fs / 10.0, 'delay': 0.0, 'in': tone},
+        # the input factory was in use before it was wrapped (previewed / played out): the wrappers reset it
+        {'t': 'repeat', 'n': 2, 'skip': 1, 'rate': fs / 12.0, 'delay': 1 / fs, 'in': {'t': 'fixed', 'n': 8}, 'preplay': 3},
+        {'t': 'repeat', 'n': 3, 'skip': 0, 'rate': fs / 10.0, 'delay': 0.0, 'in': {'t': 'fixed', 'n': 9}, 'preplay': 9},
+        {'t': 'gate', 'start': 2, 'dur': 9, 'in': fx, 'preplay': 4},
     ]
 
 
